@@ -35,7 +35,7 @@ LABELS = {"modified": "MOD", "added": "ADD:", "removed": "DEL:", "renamed": "REN
 DEFAULT_LABELS = {"modified": "", "added": "added:", "removed": "removed:", "renamed": "renamed:",
                   "copied": "copied:"}
 EVENTS = ["modified", "added", "deleted", "renamed", "renamed_changed", "copied", "mode",
-          "mode_changed", "binary", "empty", "renamed_binary"]
+          "mode_changed", "binary", "empty", "renamed_binary", "conflict_at_top"]
 
 
 def enc(s):
@@ -113,6 +113,14 @@ def make_section(event, shape, n, prefixes=("a/", "b/"), src="git", frag=""):
     elif event == "empty":
         lines = [d, "new file mode 100644", "index 0000000..e69de29"]
         spec.update(label_key="added")
+    elif event == "conflict_at_top":
+        # unresolved merge (combined diff) whose first hunk starts with the conflict marker: a conflict at line 1
+        # of the file (every add/add conflict), or `git diff -U0`
+        hh3 = "@@@ -1,3 -1,3 +1,7 @@@" + ((" " + frag) if frag else "")
+        lines = ["diff --cc %s" % withq("", old), "index 1111111,2222222..0000000", "--- " + marker(pa, old),
+                 "+++ " + marker(pb, new), hh3, "++<<<<<<< HEAD", " +ours", "++=======", "+ theirs", "++>>>>>>> branch",
+                 "  z"]
+        spec["hunks"] = [frag]
     elif event == "renamed_binary":
         new = nm("", "%dR" % n)
         d = "diff --git %s %s" % (withq(pa, old), withq(pb, new))
@@ -292,7 +300,7 @@ class Headers(Problem):
         hunk_line = (not is_hh) and spec["hunks"] and line[:1] in (b" ", b"-", b"+") and \
             not line.startswith((b"--- ", b"+++ "))
         if is_hh:
-            frag = line.split(b"@@", 2)[2].strip().decode("utf-8") if line.count(b"@@") >= 2 else ""
+            frag = line.split(b"@@", 2)[2].lstrip(b"@").strip().decode("utf-8") if line.count(b"@@") >= 2 else ""
             model = (pend_file, nfile, frag, prev)
             return self._rows(model, out, n, spec, False)
         if hunk_line:
